@@ -363,6 +363,43 @@ theorem sign_built_bytes (m : CoseSign) (k j : Nat) (hk : k + 2 ≤ recursionLim
   · simp only [toVec, h1]
   · simp only [fromSlice, readToValue_enc _ hn hd, h2]
 
+/-- what the three single-layer messages emit is `Normal` and within the budget (the form used by C06's byte-level wire theorems). -/
+theorem sign1_emitted_normal (m : CoseSign1) (k : Nat) (hk : k + 2 ≤ recursionLimit)
+    (hp : ProtectedHeader.WF maxNest m.protected_) (hu : Header.WF maxNest m.unprotected)
+    (hpn : ProtectedHeader.NF m.protected_) (hun : Header.NF k m.unprotected)
+    (hpl : ∀ b, m.payload = some b → b.length < 2 ^ 64) (hsg : m.signature.length < 2 ^ 64) (x : Value) (hx : m.toValue = .ok x) :
+    Normal x ∧ depthOf x ≤ recursionLimit := by
+  obtain ⟨b, y, p', u', hs, _⟩ := slots_rt _ _ hp hu
+  have h1 : m.toValue = .ok (.array [.bytes b, y, optBytesToValue m.payload, .bytes m.signature]) := by simp [CoseSign1.toValue, hs]
+  rw [h1] at hx; cases hx
+  obtain ⟨n1, d1, n2, d2⟩ := slots_emit_normal _ _ k hp hu hpn hun _ _ hs
+  obtain ⟨n3, d3⟩ := normal_optBytes m.payload hpl
+  exact ⟨by simp only [Normal, NormalL]; exact ⟨by simp, n1, n2, n3, hsg, trivial⟩, by simp only [depthOf, depthOfL] at d1 d3 ⊢; omega⟩
+
+theorem mac0_emitted_normal (m : CoseMac0) (k : Nat) (hk : k + 2 ≤ recursionLimit)
+    (hp : ProtectedHeader.WF maxNest m.protected_) (hu : Header.WF maxNest m.unprotected)
+    (hpn : ProtectedHeader.NF m.protected_) (hun : Header.NF k m.unprotected)
+    (hpl : ∀ b, m.payload = some b → b.length < 2 ^ 64) (htg : m.tag.length < 2 ^ 64) (x : Value) (hx : m.toValue = .ok x) :
+    Normal x ∧ depthOf x ≤ recursionLimit := by
+  obtain ⟨b, y, p', u', hs, _⟩ := slots_rt _ _ hp hu
+  have h1 : m.toValue = .ok (.array [.bytes b, y, optBytesToValue m.payload, .bytes m.tag]) := by simp [CoseMac0.toValue, hs]
+  rw [h1] at hx; cases hx
+  obtain ⟨n1, d1, n2, d2⟩ := slots_emit_normal _ _ k hp hu hpn hun _ _ hs
+  obtain ⟨n3, d3⟩ := normal_optBytes m.payload hpl
+  exact ⟨by simp only [Normal, NormalL]; exact ⟨by simp, n1, n2, n3, htg, trivial⟩, by simp only [depthOf, depthOfL] at d1 d3 ⊢; omega⟩
+
+theorem encrypt0_emitted_normal (m : CoseEncrypt0) (k : Nat) (hk : k + 2 ≤ recursionLimit)
+    (hp : ProtectedHeader.WF maxNest m.protected_) (hu : Header.WF maxNest m.unprotected)
+    (hpn : ProtectedHeader.NF m.protected_) (hun : Header.NF k m.unprotected)
+    (hct : ∀ b, m.ciphertext = some b → b.length < 2 ^ 64) (x : Value) (hx : m.toValue = .ok x) :
+    Normal x ∧ depthOf x ≤ recursionLimit := by
+  obtain ⟨b, y, p', u', hs, _⟩ := slots_rt _ _ hp hu
+  have h1 : m.toValue = .ok (.array [.bytes b, y, optBytesToValue m.ciphertext]) := by simp [CoseEncrypt0.toValue, hs]
+  rw [h1] at hx; cases hx
+  obtain ⟨n1, d1, n2, d2⟩ := slots_emit_normal _ _ k hp hu hpn hun _ _ hs
+  obtain ⟨n3, d3⟩ := normal_optBytes m.ciphertext hct
+  exact ⟨by simp only [Normal, NormalL]; exact ⟨by simp, n1, n2, n3, trivial⟩, by simp only [depthOf, depthOfL] at d1 d3 ⊢; omega⟩
+
 /-! ### keys and claims sets -/
 
 /-- field-level normality of a COSE_Key (`k`: nesting budget for the values of the extra parameters). -/
